@@ -104,7 +104,9 @@ theorem isWildcard_of_last {v : Version} (h1 : (v.num.dropLast).any (fun x => x 
     · have := h1 x hx
       simp only [Bool.or_eq_true, beq_iff_eq, not_or] at this
       simpa using this.1
-    · simpa [List.getLastD] using h2
+    · have e : (l.concat x).getLastD (0 : Int) = x := by simp [List.getLastD_eq_getLast?]
+      rw [e] at h2
+      simpa using h2
 
 theorem excludeToSpans_ok (hs : Generic s = true) (v : Version) (hv : BVw s v) (s1 s2 : Span)
     (h : excludeToSpans v = .ok (s1, s2)) : AllOK s [s1, s2] ∧ MinSorted s [s1, s2] := by
@@ -154,7 +156,7 @@ theorem excludeToSpans_ok (hs : Generic s = true) (v : Version) (hv : BVw s v) (
               injection hlh with h1 h2
               subst h1 h2
               refine ⟨hv, hv, ?_⟩
-              have hw : lo.isWildcard = false :=
+              have hw : v.isWildcard = false :=
                 isWildcard_of_last (by simpa using hdl) (by simpa using hlast)
               rw [normMin_eq_normMax hw]
               exact Std.le_refl _
@@ -255,7 +257,7 @@ theorem cpUnop_ok (hs : Generic s = true) (p : CP) (hp : p.sys = s) (typ : Nat) 
           injection h with h
           injection h with h1 h2
           subst h1 h2
-          refine ⟨?_, ?_, hp⟩
+          refine ⟨?_, ?_, rfl⟩
           all_goals
             simp only
             split at hspans
@@ -291,7 +293,7 @@ theorem cpPlain_ok (hs : Generic s = true) (p : CP) (hp : p.sys = s) (typ : Nat)
     injection h with h
     injection h with h1 h2
     subst h1 h2
-    exact ⟨allOK_nil, minSorted_nil, hp⟩
+    exact ⟨allOK_nil, minSorted_nil, rfl⟩
   · rename_i version hv
     have hbv := C11.parse_bvw s hs tok version hv
     split
@@ -302,7 +304,7 @@ theorem cpPlain_ok (hs : Generic s = true) (p : CP) (hp : p.sys = s) (typ : Nat)
       injection h with h
       injection h with h1 h2
       subst h1 h2
-      exact ⟨allOK_one (opVersionToSpan_ok hs _ version hbv sp hsp), minSorted_one sp, hp⟩
+      exact ⟨allOK_one (opVersionToSpan_ok hs _ version hbv sp hsp), minSorted_one sp, rfl⟩
 
 theorem cpHyphen_ok (hs : Generic s = true) (p : CP) (hp : p.sys = s) (tok r2 : Bytes) :
     VRok s (cpHyphen p tok r2) := by
@@ -332,14 +334,14 @@ theorem cpHyphen_ok (hs : Generic s = true) (p : CP) (hp : p.sys = s) (tok r2 : 
                 injection h with h1 h2
                 subst h1 h2
                 exact ⟨allOK_one (okOK_newSpan hs _ _ _ _ hbl (C11.fill_bvw hbh _ C11.inf_ok) sp hsp),
-                  minSorted_one sp, hp⟩
+                  minSorted_one sp, rfl⟩
           · exact vrok_fail _ (Or.inl rfl)
           · exact vrok_fail _ (Or.inr rfl)
         · intro vr q h
           injection h with h
           injection h with h1 h2
           subst h1 h2
-          exact ⟨allOK_nil, minSorted_nil, hp⟩
+          exact ⟨allOK_nil, minSorted_nil, rfl⟩
   · exact vrok_fail _ (Or.inl rfl)
   · exact vrok_fail _ (Or.inr rfl)
 
@@ -515,6 +517,7 @@ theorem orList_go_ok (hs : Generic s = true) (hn : s ≠ .nuget) (fuel : Nat) :
           | ok t =>
             obtain ⟨typ, tok, r⟩ := t
             simp only
+            generalize (if (p.sys == System.maven || p.sys == System.nuget) = true then tokComma else tokOr) = orTok
             split
             · exact ih { p1 with rest := r } (spans ++ set) true a2 hsp'
             · exact orList_fin_ok hs p1 _ hsp'
@@ -587,9 +590,15 @@ theorem parseConstraint_setOK (hs : Generic s = true) (hn : s ≠ .nuget) (b : B
           obtain ⟨o1, o2⟩ := cpOrList_ok hs hn p0 hp0s spans p1 hres
           simp only at h
           split at h
-          · split at h
-            · cases h
-            · injection h with h
+          · rename_i tk htk
+            obtain ⟨typ, tok, r⟩ := tk
+            by_cases ht : (typ != tokEOF) = true
+            · simp only [ht, ↓reduceIte, CP.setErr] at h
+              cases h
+            · simp only [ht, Bool.false_eq_true, ↓reduceIte] at h
+              split at h
+              · cases h
+              injection h with h
               subst h
               simp only
               split
